@@ -3,6 +3,7 @@ package checks
 import (
 	"encoding/json"
 	"fmt"
+	"math"
 	"sync"
 	"time"
 
@@ -17,13 +18,16 @@ import (
 // expiry oracle (sound under arbitrary scheduling delay) on histories that
 // contain real sleeps.
 
-var c19Timeouts = []time.Duration{-time.Second, 0, 2 * time.Millisecond, 5 * time.Millisecond, 20 * time.Millisecond, time.Hour}
+// "effectively infinite" includes durations whose sum with the current time does not fit 63 bits of
+// nanoseconds (250 years, the largest Duration); the most negative Duration is the other extreme
+var c19Timeouts = []time.Duration{-time.Second, 0, 2 * time.Millisecond, 5 * time.Millisecond, 20 * time.Millisecond, time.Hour,
+	250 * 365 * 24 * time.Hour, time.Duration(math.MaxInt64), time.Duration(math.MinInt64), 2 * time.Millisecond, 5 * time.Millisecond}
 
 func genC19(r *mon.Rand) *reasm.History {
 	T := mon.Pick(r, c19Timeouts)
 	h := &reasm.History{MaxInFlight: mon.Pick(r, []int{0, 1, 3, 8}), TimeoutNs: int64(T), Base: mon.Pick(r, []uint32{1, 0xFFFFFFFD, 1000})}
 	unit := T
-	if T <= 0 || T == time.Hour {
+	if T <= 0 || T >= time.Hour {
 		unit = 2 * time.Millisecond
 	}
 	sleeps := []time.Duration{0, unit / 2, 2 * unit, 5 * unit}
@@ -183,7 +187,7 @@ func c19Reentrant(c *mon.Ctx, k *c19ReCase) {
 func init() {
 	register(&mon.CheckSpec{
 		ID: "C19", Level: "exploration",
-		Rule: "cases = seeded histories of <= 12 ops (pushes of completing / non-completing / EOE records, real sleeps drawn from {0, T/2, 2T, 5T}, Maintain) followed by Close and 0-3 further Maintain/Close calls, for timeout T in {-1s, 0, 2ms, 5ms, 20ms, 1h} x maxInFlight in {0,1,3,8}; every call is bracketed by monotonic timestamps and each eviction decision is classified certainly-expired / certainly-fresh / uncertain (uncertain decisions accept either outcome). distinct_nontrivial = distinct histories (by text) with at least one certainly-expired or certainly-fresh decision.",
+		Rule: "cases = seeded histories of <= 12 ops (pushes of completing / non-completing / EOE records, real sleeps drawn from {0, T/2, 2T, 5T}, Maintain) followed by Close and 0-3 further Maintain/Close calls, for timeout T in {-2^63 ns, -1s, 0, 2ms, 5ms, 20ms, 1h, 250 years, 2^63-1 ns} x maxInFlight in {0,1,3,8}; every call is bracketed by monotonic timestamps and each eviction decision is classified certainly-expired / certainly-fresh / uncertain (uncertain decisions accept either outcome). distinct_nontrivial = distinct histories (by text) with at least one certainly-expired or certainly-fresh decision.",
 		Assumptions: []string{
 			"the library's time.Now() readings lie inside the harness's monotonic bracket of the same call (same process, same clock)",
 			"decisions that fall inside the uncertainty interval around an expiry instant are not decided (counted separately)",
